@@ -453,7 +453,28 @@ def same_clsid_pairs():
 # --------------------------------------------------------------------------------------
 # (a) immutability
 # --------------------------------------------------------------------------------------
+def check_inspection_is_pure(msg, label, acc):
+    """Looking at a message (str, repr, serialize, the properties) in any order leaves it as it was: the same
+    attributes, and every view gives the same answer before and after the others were used."""
+    views = {"str": str, "repr": repr, "serialize": lambda m: m.serialize(), "identity": lambda m: m.identity, "length": lambda m: m.length, "payload": lambda m: m.payload}
+    try:
+        keys0 = sorted(msg.__dict__)
+        first = {}
+        for order in (("str", "repr", "serialize", "identity", "length", "payload"), ("serialize", "payload", "str", "length", "repr", "identity"), ("repr", "serialize", "str")):
+            for v in order:
+                acc.transitions += 1
+                got = views[v](msg)
+                if v in first and got != first[v]:
+                    acc.violation(f"inspection_changes_a_later_view|{v}", {"kind": "immut", "entry": label}, f"{label}: {v} gave {got!r:.80} after other views were used, {first[v]!r:.80} before")
+                first.setdefault(v, got)
+        if sorted(msg.__dict__) != keys0:
+            acc.violation("inspection_changes_the_message_attributes", {"kind": "immut", "entry": label}, f"{label}: {sorted(set(msg.__dict__) ^ set(keys0))}")
+    except Exception as e:  # noqa: BLE001  (judged by C08)
+        acc.extra["inspection_raised(judged by C08)"] += 1
+
+
 def check_immutable(msg, label, acc):
+    check_inspection_is_pure(msg, label, acc)
     names = sorted(set(dir(msg)) | set(msg.__dict__) | {"brandNewAttr", "_brandNewPrivate", "_immutable", "payload", "length"})
     before = (msg.serialize(), repr(sorted((k, repr(v)) for k, v in msg.__dict__.items())))
     for name in names:
